@@ -52,6 +52,11 @@ std::string check_c08(UTAP::Document& doc, bool returned_normally_without_errors
  *  xml == false: plain text input (path must be empty, lines are the input's lines). */
 std::string check_c06a(UTAP::Document& doc, const std::string& delivered, bool xml);
 
+/** C06 for a block / query parse on an existing Document (plain text handed in with an XPath): every diagnostic *added by the
+ *  call* carries exactly that path, a line inside the text and columns inside that line, start not after end. */
+std::string check_c06_block(UTAP::Document& doc, size_t errors_before, size_t warnings_before, const std::string& text,
+                            const std::string& xpath);
+
 struct DiagView
 {
     bool error;
